@@ -132,7 +132,18 @@ func (c18) Exec(t *testing.T, c *Case, replay []int) *Outcome {
 				}
 			})
 		}
-		blocked := s.Run(nil)
+		// "TryLock never blocks", at every step: whenever the whole bubble is parked, no
+		// task may be asleep inside TryLock (or Unlock) - even if a later Unlock would wake it
+		blocked := s.Run(func() {
+			for _, id := range s.BlockedNow() {
+				switch curOp[id] {
+				case "trylock":
+					fail("trylock-blocked", fmt.Sprintf("task %d went to sleep inside TryLock (woken or not later on, TryLock must not wait)", id))
+				case "unlock":
+					fail("unlock-blocked", fmt.Sprintf("task %d went to sleep inside Unlock", id))
+				}
+			}
+		})
 		if s.Panic != "" {
 			fail("panic", s.Panic)
 		}
